@@ -138,3 +138,157 @@ theorem C12_any_short_circuit_counterexample :
     (nicsQuant .any true true .enable ports).1.map (·.enabled) = [true, false] := by decide
 
 end Primaite.Power
+
+/-! ### the interfaces' own `enable()` / `disable()`, translated (round 7c): what they do in EVERY node state -/
+namespace Primaite.Power
+open Primaite.Gen.PowerProg
+
+/-- every context is one of finitely many once the caller's local variables are set aside (a method starts in a fresh scope) -/
+macro "iface_cases" c:ident : tactic =>
+  `(tactic| (
+    obtain ⟨⟨e, l, k⟩, hn, st, hello, locs⟩ := $c
+    cases e <;> cases l <;> cases hn <;> cases st <;> cases hello <;> cases k <;> rfl))
+
+/-- the node's state as the interface sees it: ON only when there is a node and it is ON -/
+def IfCtx.on (c : IfCtx) : Bool := c.hasNode && c.nodeSt == .on
+
+/-- **`WiredNetworkInterface.enable` / `IPWiredNetworkInterface.enable` / `WirelessNetworkInterface.enable` /
+`IPWirelessNetworkInterface.enable` ARE the model's `Nic.enable`**, for every interface, with or without a node, in every
+node state, with or without a link: the interface afterwards is `Nic.enable (node is there and ON)` (without the link test
+for the wireless classes), the call NEVER raises (the answer is `some …`), and it answers whether the interface is up —
+except the IP wired classes (NIC, router interface), which answer True whatever happened. -/
+theorem C12_gen_interface_enable_sem (c : IfCtx) :
+    genWiredEnable c = (c.nic.enable c.on, some (some (c.nic.enable c.on).enabled)) ∧
+    genIpWiredEnable c = (c.nic.enable c.on, some (some true)) ∧
+    genWirelessEnable c = (c.nic.enableNoLink c.on, some (some (c.nic.enableNoLink c.on).enabled)) ∧
+    genIpWirelessEnable c = (c.nic.enableNoLink c.on, some (some (c.nic.enableNoLink c.on).enabled)) := by
+  refine ⟨?_, ?_, ?_, ?_⟩ <;> iface_cases c
+
+/-- **`WiredNetworkInterface.disable` / `WirelessNetworkInterface.disable` ARE `Nic.disable`**: whatever the node's state,
+node or no node, link or no link, the interface is down afterwards, the answer is True, nothing raises -/
+theorem C12_gen_interface_disable_sem (c : IfCtx) :
+    genWiredDisable c = (c.nic.disable, some (some true)) ∧
+    genWirelessDisable c = (c.nic.disable, some (some true)) := by
+  refine ⟨?_, ?_⟩ <;> iface_cases c
+
+/-- the wireless classes' `enable` is the model's when the model's convention `linked = true` for them holds -/
+theorem Nic.enableNoLink_eq (on : Bool) (c : Nic) (h : c.linked = true) : c.enableNoLink on = c.enable on := by
+  simp [Nic.enableNoLink, Nic.enable, h]
+
+/-- the answers are the model's `enableAnswer` (what the `enable` request reports) for each interface kind -/
+theorem C12_gen_interface_enable_answer (c : IfCtx) :
+    (c.nic.kind = .wired → (genWiredEnable c).2 = some (some (c.nic.enableAnswer c.on))) ∧
+    (c.nic.kind = .ipWired → (genIpWiredEnable c).2 = some (some (c.nic.enableAnswer c.on))) ∧
+    (c.nic.kind = .wireless → c.nic.linked = true → (genIpWirelessEnable c).2 = some (some (c.nic.enableAnswer c.on))) := by
+  obtain ⟨h1, h2, _, h4⟩ := C12_gen_interface_enable_sem c
+  refine ⟨fun hk => ?_, fun hk => ?_, fun hk hl => ?_⟩
+  · rw [h1]; simp [Nic.enableAnswer, hk]
+  · rw [h2]; simp [Nic.enableAnswer, hk]
+  · rw [h4, Nic.enableNoLink_eq _ _ hl]; simp [Nic.enableAnswer, hk]
+
+/-- **enable refuses while the node is not ON** (any of the four classes, any interface that is down): it stays down -/
+theorem C12_interface_enable_refused_unless_on (c : IfCtx) (hoff : c.nodeSt ≠ .on) (hd : c.nic.enabled = false) :
+    (genWiredEnable c).1 = c.nic ∧ (genIpWiredEnable c).1 = c.nic ∧
+    (genWirelessEnable c).1 = c.nic ∧ (genIpWirelessEnable c).1 = c.nic := by
+  obtain ⟨h1, h2, h3, h4⟩ := C12_gen_interface_enable_sem c
+  have hon : c.on = false := by
+    cases hs : c.nodeSt <;> simp_all [IfCtx.on]
+  rw [h1, h2, h3, h4]
+  simp [Nic.enable, Nic.enableNoLink, hon, hd]
+
+/-- **a wired interface with no link attached does not come up**, whatever the node's state -/
+theorem C12_interface_enable_refused_without_link (c : IfCtx) (hl : c.nic.linked = false) (hd : c.nic.enabled = false) :
+    (genWiredEnable c).1 = c.nic ∧ (genIpWiredEnable c).1 = c.nic := by
+  obtain ⟨h1, h2, _, _⟩ := C12_gen_interface_enable_sem c
+  rw [h1, h2]
+  cases hon : c.on <;> simp [Nic.enable, hl, hd]
+
+/-- **and it comes up exactly when it may**: node there and ON, link attached (wired) -/
+theorem C12_interface_enable_when_on (c : IfCtx) (hn : c.hasNode = true) (hon : c.nodeSt = .on) (hl : c.nic.linked = true) :
+    (genWiredEnable c).1.enabled = true ∧ (genIpWiredEnable c).1.enabled = true ∧
+    (genWirelessEnable c).1.enabled = true ∧ (genIpWirelessEnable c).1.enabled = true := by
+  obtain ⟨h1, h2, h3, h4⟩ := C12_gen_interface_enable_sem c
+  have : c.on = true := by simp [IfCtx.on, hn, hon]
+  rw [h1, h2, h3, h4]
+  cases he : c.nic.enabled <;> simp [Nic.enable, Nic.enableNoLink, this, hl, he]
+
+/-- none of the six methods ever raises (no dereference of a missing node / link on any path) -/
+theorem C12_interface_methods_never_raise (c : IfCtx) :
+    (genWiredEnable c).2.isSome ∧ (genIpWiredEnable c).2.isSome ∧ (genWirelessEnable c).2.isSome ∧
+    (genIpWirelessEnable c).2.isSome ∧ (genWiredDisable c).2.isSome ∧ (genWirelessDisable c).2.isSome := by
+  obtain ⟨h1, h2, h3, h4⟩ := C12_gen_interface_enable_sem c
+  obtain ⟨h5, h6⟩ := C12_gen_interface_disable_sem c
+  rw [h1, h2, h3, h4, h5, h6]; simp
+
+/-- only the two IP classes call `super()`; the base classes' bodies stand alone (the binding of `super()` is sound) -/
+theorem C12_gen_interface_super_calls :
+    wiredEnableProg.callsSuper = false ∧ wiredDisableProg.callsSuper = false ∧
+    wirelessEnableProg.callsSuper = false ∧ wirelessDisableProg.callsSuper = false := by decide
+
+/-- non-vacuity: the interpreter DOES raise on a body that logs through a missing node before testing for it -/
+example : (runI absIface (.seq .useNode (.ret (.lit true))) ⟨⟨false, true, .wired⟩, false, .on, false, []⟩).2 = none := by decide
+/-- non-vacuity: a plugged-in switch port on an ON node comes up, on a BOOTING node it does not -/
+example : (genWiredEnable ⟨⟨false, true, .wired⟩, true, .on, false, []⟩).1.enabled = true ∧
+    (genWiredEnable ⟨⟨false, true, .wired⟩, true, .booting, false, []⟩).1.enabled = false := by decide
+
+end Primaite.Power
+
+/-! ### the node's loops call the translated interface methods -/
+namespace Primaite.Power
+open Primaite.Gen.PowerProg
+
+/-- the method a concrete interface of the given kind runs on `enable()`: switch port → `WiredNetworkInterface.enable`, NIC /
+router interface → `IPWiredNetworkInterface.enable`, access point → `IPWirelessNetworkInterface.enable` (the inventory
+`C12_gen_nic_enable_defs` shows no class below them defines its own) -/
+def genEnableOf : NicKind → IfCtx → IOut
+  | .wired => genWiredEnable
+  | .ipWired => genIpWiredEnable
+  | .wireless => genIpWirelessEnable
+
+def genDisableOf : NicKind → IfCtx → IOut
+  | .wired => genWiredDisable
+  | .ipWired => genWiredDisable
+  | .wireless => genWirelessDisable
+
+/-- an interface as it sits in its node -/
+def ctxIn (n : Node) (hello : Bool) (c : Nic) : IfCtx := ⟨c, true, n.st, hello, []⟩
+
+/-- **`for i in self.network_interfaces.values(): i.enable()` of the translated power methods runs the translated interface
+bodies**: the model's `enableNics` (which `C12_gen_power_on_sem` / `_tick_power_sem` speak about) is, interface by interface,
+the translated `enable()` of that interface's class in the context "this node, in its present state" — for every node (the
+model keeps `linked = true` for an access point, which needs no link) -/
+theorem C12_enableNics_runs_translated_enable (n : Node) (hello : Bool)
+    (hw : ∀ c ∈ n.nics, c.kind = .wireless → c.linked = true) :
+    (enableNics n).nics = n.nics.map (fun c => (genEnableOf c.kind (ctxIn n hello c)).1) := by
+  simp only [enableNics]
+  apply List.map_congr_left
+  intro c hc
+  obtain ⟨h1, h2, _, h4⟩ := C12_gen_interface_enable_sem (ctxIn n hello c)
+  have hon : (ctxIn n hello c).on = n.isOn := by simp [IfCtx.on, ctxIn, Node.isOn]
+  have hnic : (ctxIn n hello c).nic = c := rfl
+  cases hk : c.kind
+  · simp only [genEnableOf]; rw [h2, hon, hnic]
+  · simp only [genEnableOf]; rw [h1, hon, hnic]
+  · simp only [genEnableOf]; rw [h4, hon, hnic]
+    exact (Nic.enableNoLink_eq _ _ (hw c hc hk)).symm
+
+theorem C12_disableNics_runs_translated_disable (n : Node) (hello : Bool) :
+    (disableNics n).nics = n.nics.map (fun c => (genDisableOf c.kind (ctxIn n hello c)).1) := by
+  simp only [disableNics]
+  apply List.map_congr_left
+  intro c _
+  obtain ⟨h1, h2⟩ := C12_gen_interface_disable_sem (ctxIn n hello c)
+  have hnic : (ctxIn n hello c).nic = c := rfl
+  cases hk : c.kind <;> simp only [genDisableOf] <;> first | rw [h1, hnic] | rw [h2, hnic]
+
+/-- **hence: while the node is not ON, no translated `enable()` of any class brings any of its interfaces up** (the loop of
+`power_on` included, were it to run) — every interface that is down stays down -/
+theorem C12_not_on_no_interface_comes_up (n : Node) (hello : Bool) (hne : n.st ≠ .on) (c : Nic) (hd : c.enabled = false) :
+    (genEnableOf c.kind (ctxIn n hello c)).1 = c := by
+  obtain ⟨h1, h2, _, h4⟩ := C12_interface_enable_refused_unless_on (ctxIn n hello c) hne hd
+  cases hk : c.kind
+  · simp only [genEnableOf]; exact h2
+  · simp only [genEnableOf]; exact h1
+  · simp only [genEnableOf]; exact h4
+
+end Primaite.Power
